@@ -254,11 +254,12 @@ def _run2(ctx, quick, mc_fixed, mc_asis, behaviours, gstats, bpath, brows, out, 
         raise Infra("harness output incomplete: %s traces / %s rows" % (summ["traces"], summ["rows"]))
     chunk_paths = [os.path.join(tdir, "chunk%d" % k, "cachefile_trace.ndjson") for k in range(nchunks)]
 
-    # ---- the binding binds: TLC must reject a corrupted / shortened recording
-    st = selftest(ctx, chunk_paths[0])
-
     # ---- (B) TLC validates every recorded row
     fails, nonconf, dropped, skips = validate(ctx, chunk_paths, summ["chunk_rows"])
+
+    # ---- the binding binds: TLC must reject a corrupted / shortened recording (its premise - the unmodified
+    # recording is accepted - only holds when the code behaved, so it runs only then)
+    st = selftest(ctx, chunk_paths[0]) if not fails else {"skipped": "the recorded traces already fail"}
     by_key = {}
     for f in fails:
         what = f["fail"]
